@@ -171,7 +171,8 @@ CLAIMED["C03"] = {
             "counts, next/previous at both ends; Block::sum == hull iff "
             "touching; IP prefix range arithmetic; range <-> prefix "
             "canonicalisation; IPv4 range -> prefix decomposition tiles the "
-            "range (<= 8 addresses, 64 in thorough); AsBlocks::difference "
+            "range (<= 8 addresses, 64 in thorough), IPv6 likewise (<= 8 "
+            "addresses anywhere); AsBlocks::difference "
             "2x2; AsBlocks::verify_issued (no-overclaim policy), "
             "verify_covered, contains up to 2x2; AsBlocks collector with 3 "
             "blocks in any order (thorough); AS range text is ordered.",
@@ -189,7 +190,7 @@ CLAIMED["C03"] = {
             "symbolic length: out of 14 GB), AsBlocks::union at full width "
             "(out of memory; the collector it is built on is decided), DER "
             "range decoding (AS: out of memory; IP: Kani ICE), text/serde "
-            "forms, ResourceSet, RequestResourceLimit, IPv6 decomposition.",
+            "forms, ResourceSet, RequestResourceLimit.",
 }
 CLAIMED["C09"] = {
     "text": "PARTIAL: delta-chain check against a sort-and-scan reference "
